@@ -8,6 +8,8 @@ THEOREMS = [
     "Spowtd.pairing_overlaps",
     "Spowtd.GS.run_terminates",
     "Spowtd.GS.gs_matching",
+    "Spowtd.load_then_classify_total",
+    "Spowtd.load_then_pairing_injective",
 ]
 TRUSTED_BASE = TRUSTED
 ASSUMPTIONS = ASSUME
